@@ -178,6 +178,18 @@ def _aes(shard, ctx, col, np):
                 ekr = rk[0, 0] if side == 'pt' else rk[0, 10]
                 if not np.array_equal(np.asarray(ek).reshape(-1), ekr):
                     col.violation('C07/aes/%s.%s/expected-key%s' % (ns, cls, '' if tags == 'default' else '-tags'), 'expected key %s, reference %s' % (np.asarray(ek).tolist(), ekr.tolist()), case)
+    # a selection function has no memory: the same data ARRAY OBJECT rewritten in place between calls, then a shorter batch, give the hypotheses of the current contents
+    buf = pool[::8].copy()
+    for step in range(3):
+        try:
+            out = sf(**{tagname: buf if step < 2 else buf[:3]})
+        except Exception as e:
+            col.violation('C07/aes/%s.%s/raised' % (ns, cls), 'reused data array, call %d: %s: %s' % (step, type(e).__name__, e), {'ns': ns, 'cls': cls, 'history': step}); break
+        col.transitions += 1
+        exp = formula(buf if step < 2 else buf[:3], np.arange(256))
+        col.nontrivial += int(exp.size)
+        _compare(col, 'C07/aes/%s.%s/history' % (ns, cls), out, exp, {'ns': ns, 'cls': cls, 'history': step}, 'call %d on a data array object rewritten in place between calls' % step)
+        buf[...] = (buf[::-1] ^ (0x3c + step)).astype(np.uint8)
     col.sample({'cipher': 'aes', 'ns': ns, 'cls': cls, 'pool': 'byte w of block i = (i(2w+1)+w) mod 256', 'example_block': pool[3].tolist()}, limit=1)
 
 
@@ -295,4 +307,16 @@ def _des(shard, ctx, col, np):
                 rk = R.key_schedule(key.tolist()); ekr = np.array(rk[0] if side == 'pt' else rk[15], dtype=np.uint8)
                 if not np.array_equal(np.asarray(ek).reshape(-1), ekr):
                     col.violation('C07/des/%s.%s/expected-key%s' % (ns, cls, '' if tags == 'default' else '-tags'), 'expected key %s, reference %s' % (np.asarray(ek).tolist(), ekr.tolist()), case)
+    # a selection function has no memory: the same data ARRAY OBJECT rewritten in place between calls, then a shorter batch, give the hypotheses of the current contents
+    buf = pool[::29].copy()
+    for step in range(3):
+        try:
+            out = sf(**{tagname: buf if step < 2 else buf[:3]})
+        except Exception as e:
+            col.violation('C07/des/%s.%s/raised' % (ns, cls), 'reused data array, call %d: %s: %s' % (step, type(e).__name__, e), {'ns': ns, 'cls': cls, 'history': step}); break
+        col.transitions += 1
+        exp = formula(buf if step < 2 else buf[:3], np.arange(64))
+        col.nontrivial += int(exp.size)
+        _compare(col, 'C07/des/%s.%s/history' % (ns, cls), out, exp, {'ns': ns, 'cls': cls, 'history': step}, 'call %d on a data array object rewritten in place between calls' % step)
+        buf[...] = (buf[::-1] ^ (0x3c + step)).astype(np.uint8)
     col.sample({'cipher': 'des', 'ns': ns, 'cls': cls, 'pool_blocks': int(len(pool)), 'example_block': pool[100].tolist()}, limit=1)
